@@ -75,6 +75,7 @@ IRR = {
     "int3": {"method": 2, "kw": {"IrrInterval": 3}},
     "int7e40": {"method": 2, "kw": {"IrrInterval": 7, "AppEff": 40}},
     "sched": {"method": 3, "kw": {}, "schedule": "inseason"},
+    "sched_cap30": {"method": 3, "kw": {"MaxIrrSeason": 30}, "schedule": "inseason"},   # the seasonal allowance cuts off a scheduled event
     "sched_big": {"method": 3, "kw": {"MaxIrr": 500}, "schedule": "big"},
     "net80": {"method": 4, "kw": {"NetIrrSMT": 80}},
     "net50": {"method": 4, "kw": {"NetIrrSMT": 50}},
